@@ -90,6 +90,8 @@ func kindPrefix(k string) string {
 		return "verif-ns"
 	case "Widget":
 		return "wid"
+	case "Gadget":
+		return "gad"
 	}
 	return "x"
 }
